@@ -90,6 +90,17 @@ class Unbindable(Exception):
     """a contract can no longer be bound to the code (renamed variable / parameter) -> undecided"""
 
 
+def ceval(fn, *args):
+    """evaluate a piece of a sidecar contract; if the code changed shape so that the contract text no longer
+    applies (a loop disappeared, a variable changed type ...) this is 'cannot bind', never a crash or a violation"""
+    try:
+        return fn(*args)
+    except (Unbindable, Unsupported, PathEnd, RaiseEx, ReturnEx):
+        raise
+    except (AttributeError, TypeError, KeyError, IndexError, ValueError, z3.Z3Exception) as e:
+        raise Unbindable('contract text does not apply to the current code (%s: %s)' % (type(e).__name__, str(e)[:120]))
+
+
 class LoopIter:
     """what a loop invariant sees of the iteration: index i, the iterated sequence, snapshot at entry"""
 
@@ -360,6 +371,9 @@ class Run:
             for x in e.values:
                 v = self.truth(self.ev(x, env), e.lineno)
                 vals.append(v)
+                vs = z3.simplify(v) if z3.is_expr(v) else v
+                if (isinstance(e.op, ast.Or) and z3.is_true(vs)) or (isinstance(e.op, ast.And) and z3.is_false(vs)):
+                    break                  # python does not evaluate the remaining operands
                 self.temp_assume.append(v if isinstance(e.op, ast.And) else Not(v))
         finally:
             del self.temp_assume[saved:]
@@ -791,11 +805,11 @@ class Run:
         hook = self.unit.sites.get(('call:' + q, kcall))
         if hook is not None:
             # delegation site: what the wrapper hands to the callee is itself specified
-            goal = hook(self.view(self.cur_env), bound)
+            goal = ceval(hook, self.view(self.cur_env), bound)
             self.oblige('site', 'site:call:%s#%d' % (q, kcall), lineno, goal)
         s = View(bound, {'run': self, 'caller_view': True, 'ghost': self.ghost})
         if c.requires is not None:
-            pre = c.requires(s)
+            pre = ceval(c.requires, s)
             self.oblige('pre', 'pre:%s' % q, lineno, pre)
         if c.pure is not None:
             return c.pure(s)
@@ -807,7 +821,7 @@ class Run:
                 self.assume(v.wellformed())
         ret = c.make_ret(self, s) if c.make_ret is not None else NONE
         if c.ensures is not None:
-            self.assume(c.ensures(old, s, ret))
+            self.assume(ceval(c.ensures, old, s, ret))
         if c.may_raise is not None:
             # callee raises EoNError under this condition: the caller's path ends exceptionally
             cond = c.may_raise(old)
@@ -1046,7 +1060,7 @@ class Run:
         self.pending_u01 = None
         hook = self.unit.sites.get(('random.random:test', k))
         if hook is not None:
-            goal = hook(self.view(self.cur_env), dict(cond=c, value=u))
+            goal = ceval(hook, self.view(self.cur_env), dict(cond=c, value=u))
             self.oblige('site', 'site:random.random:test#%d' % k, lineno, goal)
         elif 'random.random' in self.unit.sites_strict:
             self.oblige('site', 'site-unexpected:random.random:test#%d' % k, lineno, BoolVal(False))
@@ -1219,7 +1233,7 @@ class Run:
         entry = View(snap_env(env))
         outer = self.loop_stack[-1] if self.loop_stack else None
         it = LoopIter(None, None, entry, outer=outer)
-        self.oblige('loop-init', 'loop%d-init' % k, n.lineno, spec.inv(self.view(env), it))
+        self.oblige('loop-init', 'loop%d-init' % k, n.lineno, ceval(spec.inv, self.view(env), it))
         names, objs, domonly = self.modified_in(n.body + [n.test], env)
         for nm in getattr(spec, 'havoc_names', ()):
             o = env.get(nm) if nm in env else None
@@ -1227,7 +1241,7 @@ class Run:
                 objs.append(o)
         domonly = [o for o in domonly if all(o is not p for p in objs)]
         self.havoc_for_loop(names, objs, domonly, env)
-        self.assume(spec.inv(self.view(env), it))
+        self.assume(ceval(spec.inv, self.view(env), it))
         self.assume_lemmas(spec, env, it)
         c = self.truth(self.ev(n.test, env), n.lineno)
         if getattr(spec, 'step_lemma', None) is not None:
@@ -1249,7 +1263,7 @@ class Run:
                 return
             self.loop_stack.pop()
             self.assume_lemmas(spec, env, it)
-            self.oblige('loop-preserve', 'loop%d-preserve' % k, n.lineno, spec.inv(self.view(env), it))
+            self.oblige('loop-preserve', 'loop%d-preserve' % k, n.lineno, ceval(spec.inv, self.view(env), it))
             if spec.variant is not None:
                 pass
             raise PathEnd()
@@ -1278,14 +1292,14 @@ class Run:
         entry = View(snap_env(env))
         outer = self.loop_stack[-1] if self.loop_stack else None
         it0 = LoopIter(IntVal(0), seq, entry, outer=outer)
-        self.oblige('loop-init', 'loop%d-init' % k, n.lineno, spec.inv(self.view(env), it0))
+        self.oblige('loop-init', 'loop%d-init' % k, n.lineno, ceval(spec.inv, self.view(env), it0))
         names, objs, domonly = self.modified_in(n.body, env)
         tnames = {x.id for x in ast.walk(n.target) if isinstance(x, ast.Name)}
         self.havoc_for_loop(names - tnames, objs, domonly, env)
         i = fresh('it', I)
         self.assume(And(0 <= i, i <= seq.n))
         it = LoopIter(i, seq, entry, outer=outer)
-        self.assume(spec.inv(self.view(env), it))
+        self.assume(ceval(spec.inv, self.view(env), it))
         self.assume_lemmas(spec, env, it)
         if self.branch(i < seq.n, n.lineno):
             item = mkitem(i)
@@ -1302,7 +1316,7 @@ class Run:
             self.loop_stack.pop()
             it2 = LoopIter(i + 1, seq, entry, outer=outer)
             self.assume_lemmas(spec, env, it2)
-            self.oblige('loop-preserve', 'loop%d-preserve' % k, n.lineno, spec.inv(self.view(env), it2))
+            self.oblige('loop-preserve', 'loop%d-preserve' % k, n.lineno, ceval(spec.inv, self.view(env), it2))
             raise PathEnd()
         # exit: i == n.  The loop variable keeps the last item (or stays as it was if the sequence is empty);
         # modelled only when the variable is read after the loop.
@@ -1346,7 +1360,7 @@ class Run:
         if hook is None and (name + ':test', k) in self.unit.sites:
             return
         if hook is not None:
-            goal = hook(self.view(self.cur_env), info)
+            goal = ceval(hook, self.view(self.cur_env), info)
             self.oblige('site', 'site:%s#%d' % (name, k), lineno, goal)
         elif self.unit.sites_strict and name in self.unit.sites_strict:
             # a draw site the contract does not know about: the law of the process may have changed
